@@ -65,6 +65,7 @@ def render(beh, layout='spaced', rnd=None, final_newline=True, crlf=False, info=
         assert layout in ('spaced', 'lines', 'semis', 'comments')
         toks = [dict(t) for t in toks]
         n = 0
+        prev_t = None
         for t in toks:
             n += 1
             if respell == 'minus' and t['t'] in ('unop', 'binop'):
@@ -74,10 +75,17 @@ def render(beh, layout='spaced', rnd=None, final_newline=True, crlf=False, info=
                     t['w'] = [46, 46]
                 elif t['t'] == 'Number':
                     t['w'] = [46, 53] if n % 2 else [49, 46]
+            elif respell == 'slash' and t['t'] == 'binop':
+                # `/` directly before a unary minus (a/-b: no token of the dialect starts with /-), also in the tight layout
+                t['w'] = [47]
+            elif respell == 'slash' and t['t'] == 'unop' and prev_t is not None and prev_t['t'] == 'binop':
+                t['w'] = [45]
             elif respell == 'tilde' and t['t'] in ('unop',):
                 t['w'] = [126]
             elif respell == 'tilde' and t['t'] == 'binop':
                 t['w'] = [126, 61] if n % 2 else [60]
+            if t['t'] != 'SB':
+                prev_t = t
     out = []
     prev = None
     sb_pending = False
